@@ -13,7 +13,6 @@ PROP = {
     "gaps": [
         "explicit hypothesis PlanBound: every cluster of every intermediate state has at most 16384 masters (necessary: with more masters the code cuts zero-length ranges, DESIGN F11)",
         "ordered-proxy mode (enable_ordered_proxy = true) is not modelled; the quantifier of the property includes it",
-        "the per-proxy theorem is stated on the projection proxyOfView of a partition view; that the union over all proxies of their local master ranges is the same partition (union_local_partition_cluster) needs proxy-address uniqueness from ResInv (C12), not yet combined",
     ],
 }
 
